@@ -7,53 +7,55 @@ namespace MgProof.C09
 open MgModel.C09 MgModel.C09.T
 
 /-- one retracing step after the *left* child (old height `hl0`) was replaced by `l'` -/
-theorem delRetrace_left {l' r : T} (k : Int) (v : Nat) {b : Int} {hl0 : Nat} {s : Bool}
+theorem delRetrace_left {l' r : T} (k : Int) (v : Nat) (i : Nat) (p : Option Nat) {b : Int} {hl0 : Nat}
+    {s : Bool}
     (hl' : Avl l') (hr : Avl r) (hb : b = (height r : Int) - (hl0 : Int)) (hb1 : -1 ≤ b) (hb2 : b ≤ 1)
     (hh : height l' + s.toNat = hl0) :
-    ∃ t' s', delRetrace true l' k v b r s = .ok (t', s') ∧ Avl t' ∧
+    ∃ t' s', delRetrace true l' k v b r i p s = .ok (t', s') ∧ Avl t' ∧
       toList t' = toList l' ++ (k, v) :: toList r ∧
       height t' + s'.toNat = max hl0 (height r) + 1 := by
   cases s with
   | false =>
     simp only [Bool.toNat_false, Nat.add_zero] at hh
     subst hh
-    exact ⟨.node l' k v b r, false, by simp [delRetrace], ⟨hl', hr, hb, hb1, hb2⟩, by simp, by simp⟩
+    exact ⟨.node l' k v b r i p, false, by simp [delRetrace], ⟨hl', hr, hb, hb1, hb2⟩, by simp, by simp⟩
   | true =>
     simp only [Bool.toNat_true] at hh
     have hb3 : b = -1 ∨ b = 0 ∨ b = 1 := by omega
     rcases hb3 with rfl | rfl | rfl
-    · refine ⟨.node l' k v 0 r, true, by simp [delRetrace], ⟨hl', hr, ?_, ?_, ?_⟩, by simp, ?_⟩ <;>
+    · refine ⟨.node l' k v 0 r i p, true, by simp [delRetrace], ⟨hl', hr, ?_, ?_, ?_⟩, by simp, ?_⟩ <;>
         (try simp) <;> omega
-    · refine ⟨.node l' k v 1 r, false, by simp [delRetrace], ⟨hl', hr, ?_, ?_, ?_⟩, by simp, ?_⟩ <;>
+    · refine ⟨.node l' k v 1 r i p, false, by simp [delRetrace], ⟨hl', hr, ?_, ?_, ?_⟩, by simp, ?_⟩ <;>
         (try simp) <;> omega
     · have hh2 : height r = height l' + 2 := by omega
-      obtain ⟨t', d, e, ht', hlist, hht, _⟩ := rebalance_right k v hl' hr hh2
+      obtain ⟨t', d, e, ht', hlist, hht, _⟩ := rebalance_right k v i p hl' hr hh2
       refine ⟨t', d, by simp [delRetrace, e], ht', hlist, ?_⟩
       omega
 
 /-- one retracing step after the *right* child (old height `hr0`) was replaced by `r'` -/
-theorem delRetrace_right {l r' : T} (k : Int) (v : Nat) {b : Int} {hr0 : Nat} {s : Bool}
+theorem delRetrace_right {l r' : T} (k : Int) (v : Nat) (i : Nat) (p : Option Nat) {b : Int} {hr0 : Nat}
+    {s : Bool}
     (hl : Avl l) (hr' : Avl r') (hb : b = (hr0 : Int) - (height l : Int)) (hb1 : -1 ≤ b) (hb2 : b ≤ 1)
     (hh : height r' + s.toNat = hr0) :
-    ∃ t' s', delRetrace false l k v b r' s = .ok (t', s') ∧ Avl t' ∧
+    ∃ t' s', delRetrace false l k v b r' i p s = .ok (t', s') ∧ Avl t' ∧
       toList t' = toList l ++ (k, v) :: toList r' ∧
       height t' + s'.toNat = max (height l) hr0 + 1 := by
   cases s with
   | false =>
     simp only [Bool.toNat_false, Nat.add_zero] at hh
     subst hh
-    exact ⟨.node l k v b r', false, by simp [delRetrace], ⟨hl, hr', hb, hb1, hb2⟩, by simp, by simp⟩
+    exact ⟨.node l k v b r' i p, false, by simp [delRetrace], ⟨hl, hr', hb, hb1, hb2⟩, by simp, by simp⟩
   | true =>
     simp only [Bool.toNat_true] at hh
     have hb3 : b = -1 ∨ b = 0 ∨ b = 1 := by omega
     rcases hb3 with rfl | rfl | rfl
     · have hh2 : height l = height r' + 2 := by omega
-      obtain ⟨t', d, e, ht', hlist, hht, _⟩ := rebalance_left k v hl hr' hh2
+      obtain ⟨t', d, e, ht', hlist, hht, _⟩ := rebalance_left k v i p hl hr' hh2
       refine ⟨t', d, by simp [delRetrace, e], ht', hlist, ?_⟩
       omega
-    · refine ⟨.node l k v (-1) r', false, by simp [delRetrace], ⟨hl, hr', ?_, ?_, ?_⟩, by simp, ?_⟩ <;>
+    · refine ⟨.node l k v (-1) r' i p, false, by simp [delRetrace], ⟨hl, hr', ?_, ?_, ?_⟩, by simp, ?_⟩ <;>
         (try simp) <;> omega
-    · refine ⟨.node l k v 0 r', true, by simp [delRetrace], ⟨hl, hr', ?_, ?_, ?_⟩, by simp, ?_⟩ <;>
+    · refine ⟨.node l k v 0 r' i p, true, by simp [delRetrace], ⟨hl, hr', ?_, ?_, ?_⟩, by simp, ?_⟩ <;>
         (try simp) <;> omega
 
 /-- the swap-down loop along the right spine: removes the last in-order entry -/
@@ -63,24 +65,24 @@ theorem popMax_spec : ∀ t : T, t ≠ .nil → Avl t →
   intro t
   induction t with
   | nil => intro h; exact absurd rfl h
-  | node l k v b r ihl ihr =>
+  | node l k v b r i p ihl ihr =>
     intro _ ha
     obtain ⟨hl, hr, hb, hb1, hb2⟩ := ha
     cases r with
     | nil =>
       cases l with
       | nil => exact ⟨.nil, k, v, true, by simp [popMax], trivial, by simp, by simp⟩
-      | node ll lk lv lb lr =>
+      | node ll lk lv lb lr li lp =>
         obtain ⟨l', k2, v2, s, e, hl', hlist, hh⟩ := ihl (by simp) hl
         obtain ⟨t', s', e', ht', hlist', hh'⟩ :=
-          delRetrace_left k2 v2 (r := .nil) (hl0 := height (.node ll lk lv lb lr)) hl' trivial hb hb1 hb2 hh
+          delRetrace_left k2 v2 i p (r := .nil) (hl0 := height (.node ll lk lv lb lr li lp)) hl' trivial hb hb1 hb2 hh
         refine ⟨t', k, v, s', by rw [popMax]; simp only [e, e'], ht', ?_, ?_⟩
         · rw [hlist', toList_node, hlist]; simp
         · rw [hh']; simp
-    | node rl rk rv rb rr =>
+    | node rl rk rv rb rr ri rp =>
       obtain ⟨r', km, vm, s, e, hr', hlist, hh⟩ := ihr (by simp) hr
       obtain ⟨t', s', e', ht', hlist', hh'⟩ :=
-        delRetrace_right k v (hr0 := height (.node rl rk rv rb rr)) hl hr' hb hb1 hb2 hh
+        delRetrace_right k v i p (hr0 := height (.node rl rk rv rb rr ri rp)) hl hr' hb hb1 hb2 hh
       refine ⟨t', km, vm, s', by rw [popMax]; simp only [e, e'], ht', ?_, ?_⟩
       · rw [hlist', toList_node, hlist]; simp
       · rw [hh']; simp
@@ -92,49 +94,50 @@ theorem popMin_spec : ∀ t : T, t ≠ .nil → Avl t →
   intro t
   induction t with
   | nil => intro h; exact absurd rfl h
-  | node l k v b r ihl ihr =>
+  | node l k v b r i p ihl ihr =>
     intro _ ha
     obtain ⟨hl, hr, hb, hb1, hb2⟩ := ha
     cases l with
     | nil =>
       cases r with
       | nil => exact ⟨.nil, k, v, true, by simp [popMin], trivial, by simp, by simp⟩
-      | node rl rk rv rb rr =>
+      | node rl rk rv rb rr ri rp =>
         obtain ⟨r', k2, v2, s, e, hr', hlist, hh⟩ := ihr (by simp) hr
         obtain ⟨t', s', e', ht', hlist', hh'⟩ :=
-          delRetrace_right k2 v2 (l := .nil) (hr0 := height (.node rl rk rv rb rr)) trivial hr' hb hb1 hb2 hh
+          delRetrace_right k2 v2 i p (l := .nil) (hr0 := height (.node rl rk rv rb rr ri rp)) trivial hr' hb hb1 hb2 hh
         refine ⟨t', k, v, s', by rw [popMin]; simp only [e, e'], ht', ?_, ?_⟩
         · rw [hlist', toList_node, hlist]; simp
         · rw [hh']; simp
-    | node ll lk lv lb lr =>
+    | node ll lk lv lb lr li lp =>
       obtain ⟨l', km, vm, s, e, hl', hlist, hh⟩ := ihl (by simp) hl
       obtain ⟨t', s', e', ht', hlist', hh'⟩ :=
-        delRetrace_left k v (hl0 := height (.node ll lk lv lb lr)) hl' hr hb hb1 hb2 hh
+        delRetrace_left k v i p (hl0 := height (.node ll lk lv lb lr li lp)) hl' hr hb hb1 hb2 hh
       refine ⟨t', km, vm, s', by rw [popMin]; simp only [e, e'], ht', ?_, ?_⟩
       · rw [hlist', toList_node, hlist]; simp
       · rw [hh']; simp
 
 /-- `muggle_avl_tree_remove(node)` below `node`: the entry of `node` disappears from the
 in-order sequence, everything else stays, the subtree stays balanced -/
-theorem delRoot_spec {l r : T} (k : Int) (v : Nat) (b : Int) (ha : Avl (.node l k v b r)) :
-    ∃ t' s, delRoot (.node l k v b r) = .ok (t', s) ∧ Avl t' ∧
-      toList t' = toList l ++ toList r ∧ height t' + s.toNat = height (.node l k v b r) := by
+theorem delRoot_spec {l r : T} (k : Int) (v : Nat) (b : Int) (i : Nat) (p : Option Nat)
+    (ha : Avl (.node l k v b r i p)) :
+    ∃ t' s, delRoot (.node l k v b r i p) = .ok (t', s) ∧ Avl t' ∧
+      toList t' = toList l ++ toList r ∧ height t' + s.toNat = height (.node l k v b r i p) := by
   obtain ⟨hl, hr, hb, hb1, hb2⟩ := ha
   cases l with
   | nil =>
     cases r with
     | nil => exact ⟨.nil, true, by simp [delRoot], trivial, by simp, by simp⟩
-    | node rl rk rv rb rr =>
+    | node rl rk rv rb rr ri rp =>
       obtain ⟨r', km, vm, s, e, hr', hlist, hh⟩ := popMin_spec _ (by simp) hr
       obtain ⟨t', s', e', ht', hlist', hh'⟩ :=
-        delRetrace_right km vm (l := .nil) (hr0 := height (.node rl rk rv rb rr)) trivial hr' hb hb1 hb2 hh
+        delRetrace_right km vm i p (l := .nil) (hr0 := height (.node rl rk rv rb rr ri rp)) trivial hr' hb hb1 hb2 hh
       refine ⟨t', s', by simp [delRoot, e, e'], ht', ?_, ?_⟩
       · simp [hlist', hlist]
       · rw [hh']; simp
-  | node ll lk lv lb lr =>
+  | node ll lk lv lb lr li lp =>
     obtain ⟨l', km, vm, s, e, hl', hlist, hh⟩ := popMax_spec _ (by simp) hl
     obtain ⟨t', s', e', ht', hlist', hh'⟩ :=
-      delRetrace_left km vm (hl0 := height (.node ll lk lv lb lr)) hl' hr hb hb1 hb2 hh
+      delRetrace_left km vm i p (hl0 := height (.node ll lk lv lb lr li lp)) hl' hr hb hb1 hb2 hh
     refine ⟨t', s', by simp [delRoot, e, e'], ht', ?_, ?_⟩
     · rw [hlist', hlist]; simp
     · rw [hh']; simp
@@ -149,28 +152,28 @@ theorem del_spec (x : Int) : ∀ t : T, Avl t → Sorted t →
   intro t
   induction t with
   | nil => intro _ _; left; exact ⟨rfl, rfl⟩
-  | node l k v b r ihl ihr =>
+  | node l k v b r i p ihl ihr =>
     intro ha hs
     have ha' := ha
     obtain ⟨hl, hr, hb, hb1, hb2⟩ := ha
     obtain ⟨sl, sr, hlk, hkr⟩ := sorted_node.mp hs
     by_cases hxk : x = k
     · subst hxk
-      obtain ⟨t', s, e, ht', hlist, hh⟩ := delRoot_spec x v b ha'
+      obtain ⟨t', s, e, ht', hlist, hh⟩ := delRoot_spec x v b i p ha'
       right
       exact ⟨t', s, by simp [del, e], ht', hh, toList l, v, toList r, by simp, hlist⟩
     by_cases hlt : x < k
     · rcases ihl hl sl with ⟨e, hf⟩ | ⟨l', s, e, hl', hh, l1, xv, l2, e1, e2⟩
       · left; simp [del, find, hxk, hlt, e, hf]
       · obtain ⟨t', s', e', ht', hlist, hht⟩ :=
-          delRetrace_left k v (hl0 := height l) hl' hr hb hb1 hb2 hh
+          delRetrace_left k v i p (hl0 := height l) hl' hr hb hb1 hb2 hh
         right
         exact ⟨t', s', by simp [del, hxk, hlt, e, e'], ht', by simpa using hht,
           l1, xv, l2 ++ (k, v) :: toList r, by simp [e1], by simp [hlist, e2]⟩
     · rcases ihr hr sr with ⟨e, hf⟩ | ⟨r', s, e, hr', hh, l1, xv, l2, e1, e2⟩
       · left; simp [del, find, hxk, hlt, e, hf]
       · obtain ⟨t', s', e', ht', hlist, hht⟩ :=
-          delRetrace_right k v (hr0 := height r) hl hr' hb hb1 hb2 hh
+          delRetrace_right k v i p (hr0 := height r) hl hr' hb hb1 hb2 hh
         right
         exact ⟨t', s', by simp [del, hxk, hlt, e, e'], ht', by simpa using hht,
           toList l ++ (k, v) :: l1, xv, l2, by simp [e1], by simp [hlist, e2]⟩
